@@ -236,7 +236,14 @@ Section Judge.
             else if res_is (j2t_do (mkPolicy num_code true true) D o t text) pre out then VKnown 208
             else VBad 5 [FZ c; FZ cp]
           | None =>
-            if res_is (j2t_do strict D o t (repair_ctl false false text)) pre out then VKnown 205 else VBad 6 [FZ cp]
+            if res_is (j2t_do strict D o t (repair_ctl false false text)) pre out then VKnown 205
+            (* finding 213: a top-level string literal cut off by the end of the text whose body is a multiple of 32 bytes is accepted
+               with its last byte taken for the closing quote (native advance_string: `ch` is read uninitialised when the SIMD
+               rounds consume everything) *)
+            else if is_str_ty t && (match text with c :: _ => c =? 34 | [] => false end)
+                    && ((Z.of_nat (length text) - 1) mod 32 =? 0)
+                    && res_is (j2t_do strict D o t (repair_ctl false false (removelast text ++ [34]))) pre out then VKnown 213
+            else VBad 6 [FZ cp]
           end
         end
     end.
